@@ -1,4 +1,5 @@
 import ChiModel.Purity
+import ChiModel.Ownership
 set_option linter.unusedSectionVars false
 set_option linter.unusedSimpArgs false
 set_option linter.unusedVariables false
@@ -117,3 +118,72 @@ theorem C19_alias_counterexample :
   decide
 
 end ChiModel.Purity
+
+/-! ## objects and the objects they were built from -/
+namespace ChiModel.Ownership
+open ChiModel.Reduced ChiModel.Purity
+variable {α β : Type}
+
+theorem act_other (names : List String) (g : α) (σ : Store α) (x : Act α) (b : Nat) (h : x.cell ≠ b) :
+    act names g σ x b = σ b := by
+  cases x <;> simp [act, setCell, Act.cell] at * <;> intro hb <;> exact absurd hb.symm h
+
+/-- C19 / C08 (frame): whatever is done — fixes, releases, evaluations, in any number and order — to
+    OTHER objects leaves the hidden state of the object in cell `b` as it was. -/
+theorem C19_frame (names : List String) (g : α) (l : List (Act α)) (σ : Store α) (b : Nat)
+    (h : ∀ x ∈ l, x.cell ≠ b) : acts names g σ l b = σ b := by
+  induction l generalizing σ with
+  | nil => rfl
+  | cons x xs ih =>
+    simp only [acts, List.foldl_cons]
+    have := ih (act names g σ x) (fun y hy => h y (List.mem_cons_of_mem _ hy))
+    simp only [acts] at this
+    rw [this, act_other names g σ x b (h x List.mem_cons_self)]
+
+/-- C19 (siblings, later changes to the user's models): an object that owns a deep copy of the
+    ingredient it was built from (cell `fresh`, never addressed by the caller's handle `src`) evaluates,
+    after ANY activity on the ingredient and on siblings, to what it evaluated when it was made. -/
+theorem C19_deep_copy_isolated (names : List String) (g : α) (σ : Store α) (src fresh : Nat)
+    (l : List (Act α)) (h : ∀ x ∈ l, x.cell ≠ fresh) (F : List α → β) (free : List α) :
+    evalFresh (acts names g (deepCopy σ src fresh) l fresh) F free = evalFresh (σ src) F free := by
+  rw [C19_frame names g l _ fresh h]
+  simp [deepCopy, setCell]
+
+/-- … and interleaved evaluations of the object itself do not matter either (C19_sequence_is_pointwise
+    on its own cell, the frame theorem on the others): the result after a mixed history equals the single
+    evaluation of the untouched object, as long as nobody FIXES on the object's own cell. -/
+theorem C19_mixed_history (names : List String) (g : α) (l : List (Act α)) (σ : Store α) (b : Nat)
+    (h : ∀ x ∈ l, (∃ d, x = Act.fix b d) → False) (F : List α → β) (free : List α) :
+    evalFresh (acts names g σ l b) F free = evalFresh (σ b) F free := by
+  suffices hs : Purity.Equiv (acts names g σ l b) (σ b) by
+    have := C19_eval_preserves_equiv (σ b) (acts names g σ l b) F free (Purity.equiv_symm _ _ hs)
+    simpa [evalFresh] using this.2
+  induction l generalizing σ with
+  | nil => exact Purity.equiv_refl _
+  | cons x xs ih =>
+    simp only [acts, List.foldl_cons]
+    have ih' := ih (act names g σ x) (fun y hy => h y (List.mem_cons_of_mem _ hy))
+    simp only [acts] at ih'
+    refine Purity.equiv_trans _ _ _ ih' ?_
+    by_cases hc : x.cell = b
+    · cases x with
+      | fix a d =>
+        simp only [Act.cell] at hc; subst hc
+        exact absurd ⟨d, rfl⟩ (h _ List.mem_cons_self)
+      | eval a fr =>
+        simp only [Act.cell] at hc; subst hc
+        simp only [act, setCell, if_true]
+        exact (C19_eval_preserves_equiv (σ a) (σ a) (fun x => x) fr (Purity.equiv_refl _)).1
+    · rw [act_other names g σ x b hc]; exact Purity.equiv_refl _
+
+/-- a SHALLOW copy (`copy.copy` of a reduced wrapper keeps pointing at the same mask and buffer: the
+    derived object's handle is the ingredient's cell): a fix made through the sibling's handle changes
+    what the object evaluates to (witness of the seeded change C08-5). -/
+theorem C19_shared_cell_counterexample :
+    let names := ["a", "b"]
+    let σ : Store Nat := fun _ => some [(true, 1), (false, 0)]
+    let shared := acts names 0 σ [Act.fix 0 [("a", some 5)]]          -- sibling and object both live in cell 0
+    let owned := acts names 0 (deepCopy σ 0 1) [Act.fix 0 [("a", some 5)]]   -- the object owns cell 1
+    evalFresh (shared 0) (fun x => x) [7] = [5, 7] ∧ evalFresh (owned 1) (fun x => x) [7] = [1, 7] := by
+  decide
+end ChiModel.Ownership
